@@ -6,7 +6,7 @@ import PromModel.Tsdb.Isolation
   real code did in that step. `model` replays the observed actions through `Iso.step` — an action the
   model does not enable in its current state yields `not-enabled:…`, which can never equal the
   implementation's output — and prints, for every step, the complete observable state it predicts (every
-  series' chunk layout and transaction ring with its raw `first`/`cap`, the open appenders, the low
+  series' chunk layout and the ids its transaction ring holds, the open appenders, the low
   watermark, every open reader's snapshot) and, for reads, the samples the reader must see.
 
   `judge` is the property statement evaluated on the implementation's own outputs, independently of the
@@ -50,7 +50,7 @@ def parseSeen? (s : String) : Option (List (Int × Int)) :=
 /-! ### model: replay of the observed action trace -/
 
 def seriesDigest (k : Nat) (s : Series) : String :=
-  s!"s{k}:mm={showNats s.mm}:hd={showNats s.hd}:ring={s.ring.ids.length}/{s.ring.first}/{s.ring.count}/{showNats s.ring.contents}"
+  s!"s{k}:mm={showNats s.mm}:hd={showNats s.hd}:ring={s.ring.count}/{showNats s.ring.contents}"
 
 def globalDigest (σ : St) : String :=
   let rd := if σ.readers.isEmpty then "-" else
